@@ -456,6 +456,56 @@ theorem last_assignment_wins_program (rule : IdxRule) (items : List Item) (m : O
   simp only [ho, Bool.false_eq_true, if_false]
   exact assign_sets rule _ m a ha w
 
+/-- one non-opening declaration evaluated in a single scope `m`: the stack is unchanged and the IR is `evalDecl`'s -/
+theorem step_decl_single (rule : IdxRule) (st : St) (m : Owner) (d : FDecl) (ho : d.opens = false)
+    (hscope : st.stack.headD [] = [m]) :
+    step rule st (.decl d) = { st with ir := (st.ir.evalDecl rule m d).1 } := by
+  simp only [step, hscope, evalScopes, ho, Bool.false_eq_true, if_false]
+
+/-- program form of `merge_ci` + `last_write_wins`: whatever came before, a program that ends with `a: v` then `A: w`
+    (same key up to case) has one field for the key — the second declaration adds none — and that field carries `w` -/
+theorem override_program (rule : IdxRule) (items : List Item) (m : Owner) (a b : Name) (ha : a.ordinary) (hb : b.ordinary)
+    (hs : fold a.s = fold b.s) (hq : a.resLower = true → a.q = b.q) (v w : String)
+    (hscope : (evalItems rule items).stack.headD [] = [m]) :
+    let st1 := evalItems rule (items ++ [.decl (assign a v)])
+    let st2 := evalItems rule (items ++ [.decl (assign a v), .decl (assign b w)])
+    (st2.ir.fieldsOf m).length = (st1.ir.fieldsOf m).length ∧
+      (∃ f, st2.ir.findIn m a = some f ∧ f.prim = some w) ∧ st2.stack = (evalItems rule items).stack := by
+  intro st1 st2
+  have h1 : st1 = { evalItems rule items with ir := ((evalItems rule items).ir.evalDecl rule m (assign a v)).1 } := by
+    show evalItems rule (items ++ [.decl (assign a v)]) = _
+    rw [evalItems_append]
+    simp only [List.foldl_cons, List.foldl_nil]
+    exact step_decl_single rule _ m _ rfl hscope
+  have h2 : st2 = { evalItems rule items with
+      ir := ((((evalItems rule items).ir.evalDecl rule m (assign a v)).1).evalDecl rule m (assign b w)).1 } := by
+    show evalItems rule (items ++ [.decl (assign a v), .decl (assign b w)]) = _
+    rw [evalItems_append]
+    simp only [List.foldl_cons, List.foldl_nil]
+    rw [step_decl_single rule _ m _ rfl hscope]
+    exact step_decl_single rule _ m _ rfl hscope
+  obtain ⟨hl, hf⟩ := merge_ci rule (evalItems rule items).ir m a b ha hb hs hq v w
+  rw [h1, h2]
+  exact ⟨hl, hf, rfl⟩
+
+/-- program form of `null_removes_field`: whatever came before, a program that ends with `a: null` has nothing under `a`
+    and nothing under any path through `a`; the arena invariant it needs is the reachable one -/
+theorem null_removes_program (rule : IdxRule) (items : List Item) (m : Owner) (a : Name) (ha : a.ordinary)
+    (hnr : a.resLower = false) (hscope : (evalItems rule items).stack.headD [] = [m]) :
+    let st := evalItems rule (items ++ [.decl (assignNull a)])
+    st.ir.findIn m a = none ∧ ∀ rest, st.ir.getField m (a :: rest) = none := by
+  intro st
+  have h1 : st = { evalItems rule items with ir := ((evalItems rule items).ir.evalDecl rule m (assignNull a)).1 } := by
+    show evalItems rule (items ++ [.decl (assignNull a)]) = _
+    rw [evalItems_append]
+    simp only [List.foldl_cons, List.foldl_nil]
+    exact step_decl_single rule _ m _ rfl hscope
+  rw [h1]
+  exact null_removes_field rule _ (reachable_finv rule items) m a ha hnr
+
+/-- non-vacuity of the scope hypothesis: the empty program evaluates declarations in the root map -/
+example (rule : IdxRule) : (evalItems rule []).stack.headD [] = [.root] := rfl
+
 /-! ### counterexamples (each replayed on d2 with a ten-line program calling `d2compiler.Compile`) -/
 
 def cxN (s : String) (p : Nat) (q : Bool := false) : Name := { s := s, q := q, pos := p }
